@@ -85,6 +85,16 @@ def check_one(kind, n, k, full=True):
         except Exception:
             return None
         raise Violation('invalid-count-accepted', f'{kind} n={n} k={k}: shard(k, 0) returned {list(got)!r}')
+    if k == n:
+        # a count strictly between n and n + 1 (or below 1) is not a valid count either
+        for frac in (n + 0.5, 0.5):
+            for how, call in (('split', lambda: ds.split(frac)), ('shard', lambda: ds.shard(frac, 0))):
+                try:
+                    got = call()
+                except Exception:
+                    continue
+                raise Violation('invalid-count-accepted', f'{kind} n={n}: {how}({frac}) was accepted: '
+                                                          f'{[list(x) for x in got] if how == "split" else list(got)}')
     if len(shards) != k:
         raise Violation('shard-count', f'{kind} n={n} k={k}: {len(shards)} shards')
     lists = [list(s) for s in shards]
